@@ -93,8 +93,8 @@ class Codec:
             return dict((self.dec(k), self.dec(x)) for k, x in a["D"])
         if "cls" in a:
             return TARGETS[a["cls"]]()
-        if "call" in a:  # simulator-owned conversion callable
-            return SIM_CALLABLES.get(a["call"])
+        if "call" in a:  # simulator-owned conversion callable (a peer)
+            return make_callable(a["call"])
         raise TypeError("cannot decode %r" % (a,))
 
 
@@ -242,8 +242,44 @@ class _Py:
 
 PY = _Py()
 
-# simulator-owned conversion callables (peers), filled by world.py
+# simulator-owned conversion callables (peers)
 SIM_CALLABLES = {}
+PEER = {"armed": None, "sim": None, "calls": 0}
+
+
+class PeerFault(ArithmeticError):
+    """F2: a user-supplied conversion callable fails on its n-th invocation."""
+
+
+def make_callable(spec):
+    """'mul:3.0' / 'div:3.0' / 'aff:1.8:32.0' (x*a+b) / 'inv_aff:1.8:32.0' ((x-b)/a)."""
+    if spec in SIM_CALLABLES:
+        return SIM_CALLABLES[spec]
+    parts = spec.split(":")
+    kind, nums = parts[0], [float(x) for x in parts[1:]]
+
+    def fn(x):
+        PEER["calls"] += 1
+        if PEER["armed"] is not None:
+            PEER["armed"] -= 1
+            if PEER["armed"] <= 0:
+                PEER["armed"] = None
+                if PEER["sim"] is not None:
+                    PEER["sim"].peer_fired = True
+                raise PeerFault("simulated failure of a user-supplied conversion callable")
+        if kind == "mul":
+            return x * nums[0]
+        if kind == "div":
+            return x / nums[0]
+        if kind == "aff":
+            return x * nums[0] + nums[1]
+        if kind == "inv_aff":
+            return (x - nums[1]) / nums[0]
+        raise ValueError(spec)
+
+    fn.__name__ = "sim_" + kind
+    SIM_CALLABLES[spec] = fn
+    return fn
 
 
 # ---------------------------------------------------------------------------- interrupt fault
